@@ -25,10 +25,16 @@ DATA = {
                 np.array([1, 1, 1, 1, -1, -1, -1, 1.0])),
     "single": (np.array([[0.3, 0.3]]), np.array([1.0])),
 }
+# three-dimensional data (standard combination only): index arithmetic that is only right in one and two dimensions
+DATA3 = {
+    "mixed3": (np.array([[0.3, 0.77, 0.2], [0.5, 0.25, 0.6], [0.05, 0.9, 0.45], [0.125, 0.5, 0.8], [0.6, 0.6, 0.1], [0.31, 0.8, 0.9], [0.9, 0.1, 0.5]]),
+               np.array([1, -1, 1, -0.5, 1, -0.5, 1.0])),
+}
+LATTICE3 = [(x, y, z) for x in (0.05, 1 / 3, 0.77) for y in (0.125, 0.5, 0.95) for z in (0.05, 0.6, 0.9)]
 
 
 def _classes(name, mode):
-    X, y = DATA[name]
+    X, y = DATA[name] if name in DATA else DATA3[name]
     if mode == "none":
         return None
     if mode == "pm1":
@@ -91,7 +97,7 @@ def _compare(base, other, what, key, fails):
     sc = max(1.0, float(np.max(np.abs(den0))))
     if den0.shape != den1.shape or float(np.max(np.abs(den0 - den1))) > 1e-9 * sc:
         i = int(np.argmax(np.max(np.abs(den0 - den1), axis=1))) if den0.shape == den1.shape else 0
-        fails.append(fail("densities_differ", "%s: at %r: %r vs %r" % (what, LATTICE[i], den0[i].tolist(), den1[i].tolist() if den0.shape == den1.shape else den1.shape), key))
+        fails.append(fail("densities_differ", "%s: at %r: %r vs %r" % (what, (LATTICE3 if len(den0) == len(LATTICE3) else LATTICE)[i], den0[i].tolist(), den1[i].tolist() if den0.shape == den1.shape else den1.shape), key))
 
 
 def _dw_case(case):
@@ -118,8 +124,9 @@ def _dw_case(case):
 def _run_uniform(c, reuse, thr):
     from sparseSpACE.GridOperation import DensityEstimation
     from sparseSpACE.StandardCombi import StandardCombi
-    d = 2
-    X, _ = DATA[c["data"]]
+    d = 3 if c["data"] in DATA3 else 2
+    X, _ = DATA3[c["data"]] if d == 3 else DATA[c["data"]]
+    LAT = LATTICE3 if d == 3 else LATTICE
     cls = _classes(c["data"], c["labels"])
     _set_threshold(thr)
     try:
@@ -129,10 +136,10 @@ def _run_uniform(c, reuse, thr):
         combi.perform_operation(c["lmin"], c["lmax"])
         sur = {tuple(int(x) for x in comp.levelvector): np.array(op.surpluses[tuple(comp.levelvector)], dtype=float).copy() for comp in combi.scheme}
         scheme = tuple(sorted((tuple(int(x) for x in comp.levelvector), float(comp.coefficient)) for comp in combi.scheme))
-        dens = np.asarray(combi(LATTICE), dtype=float).copy()
+        dens = np.asarray(combi(LAT), dtype=float).copy()
         # a second evaluation on the same instance (everything cached now) must not change anything
         combi.perform_operation(c["lmin"], c["lmax"])
-        dens2 = np.asarray(combi(LATTICE), dtype=float).copy()
+        dens2 = np.asarray(combi(LAT), dtype=float).copy()
     finally:
         _set_threshold(None)
     return combi, sur, scheme, dens, dens2
@@ -220,6 +227,9 @@ def main(ctx):
                             continue
                         cases.append({"config": {"kind": "uniform", "data": data, "labels": labels, "lambda": lam, "lmin": lmin, "lmax": lmax,
                                                  "masslumping": lump}})
+    for labels, lam in (("none", 0.01), ("pm1", 0.0)):
+        for (lmin, lmax) in ((1, 2), (1, 3)) + (() if q else ((2, 3), (1, 4))):
+            cases.append({"config": {"kind": "uniform", "data": "mixed3", "labels": labels, "lambda": lam, "lmin": lmin, "lmax": lmax, "masslumping": False}})
     for case, res in zip(cases, ctx.map(cases, chunksize=1)):
         ctx.absorb(case, res, group="uniform")
     ctx.add_sample(cases[0])
